@@ -145,6 +145,15 @@ type PoolWorld struct {
 	paid       map[string]*big.Int
 	settleFail bool
 	lastPay    *big.Int
+
+	lastPeerURIs []string
+}
+
+func nodeURIOf(w *World, op J) string {
+	if has(op, "rawuri") {
+		return str(op, "rawuri")
+	}
+	return w.realURI(str(op, "uri"))
 }
 
 func optAmount(op J, k string, flag string) (int64, bool) {
@@ -502,7 +511,7 @@ func (w *World) poolOp(op J) (J, error) {
 			return pool.ConnectRequest{
 				VipnodeVersion: "vipverif",
 				NodeInfo:       ethnode.UserAgent{Version: "v", Kind: ethnode.ParseNodeKind(kind), IsFullNode: full},
-				NodeURI:        w.realURI(str(op, "uri")),
+				NodeURI:        nodeURIOf(w, op),
 				Payout:         w.names.wallet(payout),
 			}
 		}
@@ -577,6 +586,10 @@ func (w *World) poolOp(op J) (J, error) {
 			if !n.IsHost {
 				w.tr.flagBad("peer reply contains a node that is not a host")
 			}
+		}
+		pw.lastPeerURIs = nil
+		for _, n := range resp.Peers {
+			pw.lastPeerURIs = append(pw.lastPeerURIs, n.URI)
 		}
 		return okRes(w.nodeIDs(resp.Peers)), nil
 	case "AddNode":
@@ -660,4 +673,11 @@ func (pw *PoolWorld) project(st J) {
 	st["dep"] = dep
 }
 
-func extraCommand(cmd string, args []string) bool { return false }
+func extraCommand(cmd string, args []string) bool {
+	switch cmd {
+	case "uritable":
+		runURITable(args)
+		return true
+	}
+	return false
+}
